@@ -353,9 +353,16 @@ def coverage(run, results, cases, rule_extra=""):
     })
 
 
+def witness_size(w):
+    """Smaller dictionaries and shorter inputs first: the replay shows the smallest failing case found (per failure key)."""
+    if not isinstance(w, dict):
+        return 10 ** 9
+    return 100 * len(w.get("dictionary") or []) + 10 * len(w.get("learned") or w.get("frequency") or []) + len(w.get("input") or "")
+
+
 def report(run, prop, fails, dis, what):
     seen = set()
-    for kind, key, w in fails:
+    for kind, key, w in sorted(fails, key=lambda f: witness_size(f[2])):
         k = json.dumps(key, sort_keys=True, ensure_ascii=False)
         if k in seen:
             continue
